@@ -40,7 +40,7 @@ def fills(seed):
 
 # a device change alone is invisible to the inverter until it reads: changes come with the runtime read that notices
 HIST = ['runtime', 'sensor:first', 'dev:battery-off', 'dev:battery-on', 'dev:refuse-mppt', 'dev:accept-mppt',
-        'dev:refuse-battery2', 'dev:refuse-meter-ext2', 'settings:colliding', 'sensor:all']
+        'dev:refuse-battery2', 'dev:refuse-meter-ext2', 'dev:refuse-meter-ext', 'settings:colliding', 'sensor:all']
 
 
 def apply(r, cfg, name):
@@ -69,6 +69,8 @@ def apply(r, cfg, name):
         dev.refused = dev.refused + ET_OPTIONAL['battery2']
     elif name == 'dev:refuse-meter-ext2':
         dev.refused = dev.refused + ET_OPTIONAL['meter_ext2']
+    elif name == 'dev:refuse-meter-ext':
+        dev.refused = dev.refused + ET_OPTIONAL['meter_ext'] + ET_OPTIONAL['meter_ext2']
     if name.startswith('dev:'):
         r.call(inv.read_runtime_data)
 
@@ -103,22 +105,20 @@ def sweep(cfg, fill, hist, transport='udp'):
         return [('bulk-read', str(bulk), None)], h(state), len(ids)
     data = bulk[1]
     for s in ids:
-        if s.id_ in fabricated:
-            continue
         if s.id_ not in data:
             continue   # capability changed under the bulk read: nothing to compare (C15's business)
         one = singles[s.id_]
         b = data[s.id_]
         t = type(s).__name__
+        if s.id_ in fabricated and not (one[0] == 'exc' and one[1] == 'ValueError' and 'nknown sensor' in one[2]):
+            continue   # bulk value decoded from missing bytes: C14's finding, the differing value is not reported twice
         if one[0] == 'exc':
             if one[1] == 'NotImplementedError':
                 vio.append((f'not-implemented/{t}', f'read_sensor({s.id_!r}) raised NotImplementedError', s.id_))
             elif one[1] == 'ValueError' and 'nknown sensor' in one[2]:
                 if 'nknown sensor/setting' in one[2]:
-                    if hasattr(dev, 'is_refused') and any(
-                            dev.is_refused(x.offset, max(1, (refdec.size_of(x) + 1) // 2)) for x in ids if x.id_ == s.id_):
-                        continue   # the device itself refuses these registers right now: the documented answer
-                    vio.append((f'unknown-sensor/{t}', f'read_sensor({s.id_!r}): {one[2]}', s.id_))
+                    # the bulk read of the very same state reports this id (ids the bulk read drops were skipped above)
+                    vio.append((f'unknown-sensor/{t}', f'read_sensor({s.id_!r}): {one[2]}; the bulk read reports {b!r}', s.id_))
                 else:
                     vio.append(('stale-id-map', f'read_sensor({s.id_!r}) says unknown sensor although sensors() lists it', s.id_))
             elif one[1] == 'ValueError':
